@@ -182,12 +182,13 @@ def jobs(tier, seed):
     for sh in shapes:
         sk = grammar(sh)
         contexts = [list(x) for x in all_strings(sk.V, L)]
-        chain = [list(x) for x in all_strings(sk.V, 2)] + ([["a", "b", "a"], ["a", "a", "b"]] if not quick else [])
+        # the chain-rule product over a length-3 string nests four normalisations: only on the small skeletons
+        chain = [list(x) for x in all_strings(sk.V, 2)] + ([["a", "b", "a"], ["a", "a", "b"]] if (not quick and sk.K < 6) else [])
         bits = [0, 1] if sk.K >= 6 else [0]
         for lmname in ["earley", "rescaled", "cky"]:
             # the rescaled variant's nested ratio terms exhaust the normaliser on length-3 contexts of the larger skeletons
             cs = [c for c in contexts if len(c) <= 2] if (not quick and sk.K >= 6 and lmname in ("rescaled", "cky")) else contexts
-            out += split_job(dict(case="lm", params=dict(shape=sh, contexts=cs, chain=chain, lms=[lmname]), timeout=2400), bits)
+            out += split_job(dict(case="lm", params=dict(shape=sh, contexts=cs, chain=chain, lms=[lmname]), timeout=600), bits)
         for pn in ["earley", "cky"]:
             out += split_job(dict(case="unnormalised", params=dict(shape=sh, contexts=contexts[: (3 if quick else 7)], parsers=[pn])), bits)
     # all agenda tie-break orders for the two Earley variants
